@@ -118,6 +118,10 @@ func (w *failWriter) Write(p []byte) (int, error) {
 	return k, w.err
 }
 
+// WriteString makes the writer an io.StringWriter (like *os.File), so that
+// bufio hands large strings to it directly.
+func (w *failWriter) WriteString(s string) (int, error) { return w.Write([]byte(s)) }
+
 var errWriter = errors.New("injected writer failure")
 
 type c18Case struct {
@@ -395,7 +399,7 @@ func TestC18(t *testing.T) {
 		if rapid.IntRange(0, 39).Draw(rt, "bigword") == 0 {
 			// a word larger than the printer's buffer, so that a chunk is
 			// written through to the (failing) writer directly
-			src = "'" + strings.Repeat("x", 6000) + "'; " + src
+			src = "'" + strings.Repeat("x", 12000) + "'; " + src
 			st.Class("output_larger_than_write_buffer")
 		}
 		base := rapid.IntRange(0, 255).Draw(rt, "config")
